@@ -85,18 +85,32 @@ def generate(rng, focus, tier="quick"):
     cuts = sorted(set(rng.choice(days) if rng.random() < 0.7 else rng.randrange(lo - 1, hi + 1)
                       for _ in range(rng.randrange(1, 4))))
     cfg = {"use_symbols": rng.random() < 0.5, "cuts": cuts, "perm_seed": rng.randrange(1 << 30)}
-    return {"world": NAME, "cfg": cfg, "market": market, "ops": ops}
+    plan = {"world": NAME, "cfg": cfg, "market": market, "ops": ops}
+    if rng.random() < 0.3:
+        # a second data source behind the same handler: the handler must return the first non-NaN answer
+        k = rng.randrange(1, 5)
+        shift = rng.choice([-5, -2, 0, 3])
+        d2 = day0 + shift
+        while not is_bday(d2):
+            d2 += 1
+        plan["market2"] = mk.gen_market(rng, k, d2, rng.choice([2, 5, 13, 30]), adjust=rng.random() < 0.5,
+                                        faults=[f for f in DATA_FAULTS if rng.random() < 0.4])
+    return plan
 
 
-def load_source(market, cfg, dirpath):
+def load_source(market, cfg, dirpath, market2=None):
+    import os
     from qstrader.data.daily_bar_csv import CSVDailyBarDataSource
     from qstrader.data.backtest_data_handler import BacktestDataHandler
     from qstrader.asset.equity import Equity
-    present = sorted(s for s, a in market["assets"].items() if a["rows"] and not a.get("removed"))
-    mk.write_market({"assets": {s: market["assets"][s] for s in present}}, dirpath)
-    syms = present if cfg.get("use_symbols") else None
-    src = CSVDailyBarDataSource(dirpath, Equity, adjust_prices=market["adjust"], csv_symbols=syms)
-    return src, BacktestDataHandler(None, data_sources=[src])
+    srcs = []
+    for j, mkt in enumerate([market] + ([market2] if market2 is not None else [])):
+        d = dirpath if j == 0 else os.path.join(dirpath, "second")
+        present = sorted(s for s, a in mkt["assets"].items() if a["rows"] and not a.get("removed"))
+        mk.write_market({"assets": {s: mkt["assets"][s] for s in present}}, d)
+        syms = present if cfg.get("use_symbols") else None
+        srcs.append(CSVDailyBarDataSource(d, Equity, adjust_prices=mkt["adjust"], csv_symbols=syms))
+    return srcs[0], BacktestDataHandler(None, data_sources=srcs)
 
 
 def ask(src, handler, api, asset, t):
@@ -162,12 +176,16 @@ def execute(plan, focus, trace=False):
     market = plan["market"]
     cfg = plan["cfg"]
     ref = RefPrices(market)
+    market2 = plan.get("market2")
+    ref2 = RefPrices(market2) if market2 is not None else None
+    if market2 is not None:
+        ctx.fault("second_data_source")
     dirs = []
     try:
         d0 = mk.scratch_dir()
         dirs.append(d0)
         try:
-            src, handler = load_source(market, cfg, d0)
+            src, handler = load_source(market, cfg, d0, market2)
         except Exception as e:
             ctx.violate("C06", "loading_valid_csv_raised", {"exc": repr(e)[:300]})
             return ctx
@@ -195,6 +213,14 @@ def execute(plan, focus, trace=False):
                                                         "exc": repr(e)[:300]})
                     continue
                 want = ref.price(asset, t)
+                known = ref.knows(asset)
+                if ref2 is not None and api.startswith("h_"):
+                    # handler level: first source whose answer is a number
+                    if want != want:
+                        want = ref2.price(asset, t)
+                        if want == want:
+                            ctx.probe("handler_fell_through_to_second_source")
+                    known = known or ref2.knows(asset)
                 cls = position_class(ref, market, asset, t)
                 ctx.event("q", api, asset, t, got)
                 ctx.fault("query_" + cls)
@@ -204,7 +230,7 @@ def execute(plan, focus, trace=False):
                 if note == "bid!=ask":
                     ctx.violate("C06", "handler_bid_differs_from_ask", {"asset": asset, "t": iso(t)})
                     continue
-                if not ref.knows(asset):
+                if not known:
                     ctx.check("C06", got != got, "unknown_asset_has_a_price", lambda: {"asset": asset, "got": got})
                     continue
                 ctx.check("C06", close(got, want, scale=abs(want) if want == want else 0.0, rel=1e-12, abs_=1e-12),
@@ -219,10 +245,11 @@ def execute(plan, focus, trace=False):
                 prng = random.Random(cfg["perm_seed"])
                 for cut in cfg["cuts"]:
                     m2 = truncated(market, cut, prng)
+                    m22 = truncated(market2, cut, prng) if market2 is not None else None
                     d2 = mk.scratch_dir()
                     dirs.append(d2)
                     try:
-                        src2, h2 = load_source(m2, cfg, d2)
+                        src2, h2 = load_source(m2, cfg, d2, m22)
                     except Exception as e:
                         ctx.violate("C06", "loading_truncated_csv_raised", {"exc": repr(e)[:300], "cut": cut})
                         break
